@@ -1075,7 +1075,7 @@ def run(ctx):
             '(plugin request + encryption request in one burst)',
             'C installed wrappers: raw stream length %d' % RAW_MAX]
     missing = [k for k in need if not ctx.classes.get(k)]
-    if missing:
+    if missing and not ctx.violations:   # (a broken tree may not get there)
         raise ToolError('vacuity guard: classes never hit: %r' % missing)
 
 
